@@ -79,10 +79,10 @@ class MultichainPolicyIteration(Plans):
             iterations=iterations,
             state_gain=state_gain,
             action_gain=action_gain,
-            initial_gain=sum(state_gain[s]*p for s, p in mdp.initial_state_dist().items()),
+            initial_gain=sum(state_gain[s]*p for s, p in mdp.initial_state_dist().items() if p > 0),
             state_value=state_bias,
             action_value=action_bias,
-            initial_value=sum(state_bias[s]*p for s, p in mdp.initial_state_dist().items()),
+            initial_value=sum(state_bias[s]*p for s, p in mdp.initial_state_dist().items() if p > 0),
             converged=iterations < (self.max_iterations - 1),
             policy=policy
         )
